@@ -29,6 +29,7 @@ type c04Shape struct {
 	noReply bool // resumed by a scripted requester that asks for no reply: cleartext in ONE direction only
 	encC    security.SecurityLevel // the two sides' encryption levels; "" = REQUIRED
 	encS    security.SecurityLevel
+	pad     int // > 0: both endpoints carry a Subsystem name of that many bytes, so each security ad is just below the 4 KiB an ad may have and each direction's cleartext exceeds it
 }
 
 func (sh c04Shape) enc() (c, s security.SecurityLevel) {
@@ -43,17 +44,20 @@ func (sh c04Shape) enc() (c, s security.SecurityLevel) {
 }
 
 var c04Shapes = []c04Shape{
-	{"noauth", security.SecurityNever, []security.AuthMethod{mCTB}, false, false, "", ""},
-	{"claimtobe", security.SecurityRequired, []security.AuthMethod{mCTB}, false, false, "", ""},
-	{"token", security.SecurityRequired, []security.AuthMethod{mTOK}, false, false, "", ""},
-	{"resumed", security.SecurityRequired, []security.AuthMethod{mCTB}, true, false, "", ""},
-	{"resumed-noreply", security.SecurityRequired, []security.AuthMethod{mCTB}, true, true, "", ""},
+	{"noauth", security.SecurityNever, []security.AuthMethod{mCTB}, false, false, "", "", 0},
+	{"claimtobe", security.SecurityRequired, []security.AuthMethod{mCTB}, false, false, "", "", 0},
+	{"token", security.SecurityRequired, []security.AuthMethod{mTOK}, false, false, "", "", 0},
+	{"resumed", security.SecurityRequired, []security.AuthMethod{mCTB}, true, false, "", "", 0},
+	{"resumed-noreply", security.SecurityRequired, []security.AuthMethod{mCTB}, true, true, "", "", 0},
 	// encryption not REQUIRED by anybody: where the connection still ends up protected the
 	// whole cleartext negotiation is bound all the same
-	{"claimtobe-enc-optional", security.SecurityRequired, []security.AuthMethod{mCTB}, false, false, security.SecurityOptional, security.SecurityOptional},
-	{"claimtobe-enc-preferred", security.SecurityRequired, []security.AuthMethod{mCTB}, false, false, security.SecurityPreferred, security.SecurityOptional},
-	{"token-enc-optional", security.SecurityRequired, []security.AuthMethod{mTOK}, false, false, security.SecurityOptional, security.SecurityPreferred},
-	{"noauth-enc-optional", security.SecurityNever, []security.AuthMethod{mCTB}, false, false, security.SecurityOptional, security.SecurityOptional},
+	{"claimtobe-enc-optional", security.SecurityRequired, []security.AuthMethod{mCTB}, false, false, security.SecurityOptional, security.SecurityOptional, 0},
+	{"claimtobe-enc-preferred", security.SecurityRequired, []security.AuthMethod{mCTB}, false, false, security.SecurityPreferred, security.SecurityOptional, 0},
+	{"token-enc-optional", security.SecurityRequired, []security.AuthMethod{mTOK}, false, false, security.SecurityOptional, security.SecurityPreferred, 0},
+	{"noauth-enc-optional", security.SecurityNever, []security.AuthMethod{mCTB}, false, false, security.SecurityOptional, security.SecurityOptional, 0},
+	// long cleartext: the negotiation frames that FOLLOW a large (legal) security ad are bound too
+	{"claimtobe-large-ads", security.SecurityRequired, []security.AuthMethod{mCTB}, false, false, "", "", 3500},
+	{"token-large-ads", security.SecurityRequired, []security.AuthMethod{mTOK}, false, false, "", "", 3500},
 }
 
 type c04Fault struct {
@@ -85,6 +89,9 @@ func c04Exec(sh c04Shape, flt *c04Fault) *c04Run {
 	cc := baseCfg(sh.auth, encC, sh.methods, []security.CryptoMethod{security.CryptoAES}, false)
 	sc := baseCfg(sh.auth, encS, sh.methods, []security.CryptoMethod{security.CryptoAES}, true)
 	cc.Command = 5
+	if sh.pad > 0 {
+		cc.Subsystem, sc.Subsystem = strings.Repeat("S", sh.pad), strings.Repeat("T", sh.pad)
+	}
 	cc.PeerName = "<" + hsServerAddr + ">"
 	var r0sid string
 	var r0key []byte
@@ -263,7 +270,7 @@ func c04Layout(sh c04Shape) (c2s, s2c []int, err error) {
 func C04Plan() *vlib.Plan {
 	p := &vlib.Plan{
 		Property: "C04", Level: "fault_enumeration",
-		Rule:   "E-FAULT: for each handshake shape (no authentication, CLAIMTOBE, TOKEN, resumed session, session resumed by a scripted requester that asks for no reply - cleartext in one direction only; both sides REQUIRE encryption; plus CLAIMTOBE / TOKEN / no authentication with encryption OPTIONAL or PREFERRED on both sides, where only data accepted on a stream that IS protected counts) a pre-pass records the cleartext frame layout; then one fault per run through a relay between two real endpoints: every byte offset of every cleartext frame (header and payload) x substitutes (the end-of-message flag byte x 7 substitute values), an empty frame (flag 0 / 1) inserted before every frame, every frame removed / duplicated / split at its midpoint, every adjacent same-direction pair merged. Application phase: three messages each way and receivers that carry on after a receive error. Oracle: fault applied and any application message accepted by either side => violation. Non-trivial = the fault was applied to a live frame (distinct (shape, direction, frame, fault) by construction).",
+		Rule:   "E-FAULT: for each handshake shape (no authentication, CLAIMTOBE, TOKEN, resumed session, session resumed by a scripted requester that asks for no reply - cleartext in one direction only; both sides REQUIRE encryption; plus CLAIMTOBE / TOKEN / no authentication with encryption OPTIONAL or PREFERRED on both sides, where only data accepted on a stream that IS protected counts; plus CLAIMTOBE / TOKEN with security ads just below the 4 KiB an ad may have, so that each direction's cleartext is longer than that) a pre-pass records the cleartext frame layout; then one fault per run through a relay between two real endpoints: every byte offset of every cleartext frame (header and payload) x substitutes (the end-of-message flag byte x 7 substitute values), an empty frame (flag 0 / 1) inserted before every frame, every frame removed / duplicated / split at its midpoint, every adjacent same-direction pair merged. Application phase: three messages each way and receivers that carry on after a receive error. Oracle: fault applied and any application message accepted by either side => violation. Non-trivial = the fault was applied to a live frame (distinct (shape, direction, frame, fault) by construction).",
 		Assume: []string{"frame layout of the cleartext path is value-independent (lengths recorded in the pre-pass; offsets beyond a live frame are counted as skipped)", "session ids / ECDH keys / nonces are random per run: faults are addressed by position, not value"},
 	}
 	p.Gen = func(tier string, yield func(vlib.Case)) {
@@ -359,6 +366,9 @@ func C04Plan() *vlib.Plan {
 				dir := []string{"c2s", "s2c"}[di]
 				for fi, l := range lens {
 					for off := 0; off < l+2; off++ {
+						if sh.pad > 0 && l > 1000 && off > 40 && off%37 != 0 && off < l-40 {
+							continue // inside the padding of a large ad: every 37th offset
+						}
 						ms := masks
 						if off == 0 {
 							// the end-of-message flag: every other value a receiver might still read
